@@ -1470,29 +1470,6 @@ or replaced since the Dwarf was opened.
 }
 
 
-std::unique_ptr <value_str>
-op_name_die::operate (std::unique_ptr <value_die> a) const
-{
-  if (a->is_cooked ())
-    {
-      // On cooked DIE's, `name` integrates.
-      const char *name = dwarf_diename (&a->get_die ());
-      if (name != nullptr)
-	return std::make_unique <value_str> (name, 0);
-      else
-	return nullptr;
-    }
-  // Unfortunately there's no non-integrating dwarf_diename
-  // counterpart.
-  else if (dwarf_hasattr (&a->get_die (), DW_AT_name))
-    {
-      Dwarf_Attribute attr = dwpp_attr (a->get_die (), DW_AT_name);
-      return std::make_unique <value_str> (dwpp_formstring (attr), 0);
-    }
-  else
-    return nullptr;
-}
-
 std::string
 op_name_die::docstring ()
 {
@@ -1763,6 +1740,19 @@ namespace
 
     return std::make_pair (find_attribute_result::not_found, nullptr);
   }
+}
+
+std::unique_ptr <value_str>
+op_name_die::operate (std::unique_ptr <value_die> a) const
+{
+  // On cooked DIE's, `name` integrates, by the same rules as @AT_name.
+  Dwarf_Attribute attr;
+  if (find_attribute (a->get_die (), DW_AT_name, a->get_doneness (),
+		      &attr, nullptr).first
+      == find_attribute_result::not_found)
+    return nullptr;
+
+  return std::make_unique <value_str> (dwpp_formstring (attr), 0);
 }
 
 std::unique_ptr <value_producer <value>>
